@@ -299,7 +299,20 @@ pub fn run(cfg: &Cfg) -> i32 {
     let d = Dialect::Cl21; // rendering only: the REPL and the comparison build both run without a sigil
     for i in out.resume_from..nprog {
         out.checkpoint(i);
-        let case = case_at(cfg.seed.wrapping_add(16_000_000), shard, i as u64, &gcfg);
+        // every third program is generated without conditionals, macros or recursion: none of the listed evaluator findings can
+        // apply there, so the partly-open comparisons of those programs are judged without any attribution
+        let cond_free = i % 3 == 2;
+        let case = if cond_free {
+            let mut g = gcfg.clone();
+            g.allow_if = false;
+            g.allow_macros = false;
+            case_at(cfg.seed.wrapping_add(16_500_000), shard, i as u64, &g)
+        } else {
+            case_at(cfg.seed.wrapping_add(16_000_000), shard, i as u64, &gcfg)
+        };
+        if cond_free {
+            out.count("programs.generated_without_conditionals");
+        }
         // the REPL takes defun, defun-inline, defconstant and defmacro as definitions
         if case.prog.helpers.iter().any(|h| matches!(h, Helper::ConstComplex(_, _, _))) || has_clo_param(&case.prog.params) {
             out.count("skipped.needs_defconst_or_closure_parameter");
@@ -448,6 +461,9 @@ pub fn run(cfg: &Cfg) -> i32 {
                 let free_args = V::list(&free.iter().map(|i| av[*i].clone()).collect::<Vec<_>>());
                 let judge_shape = |out: &mut Out| -> Option<&'static str> {
                     // the listed findings, by the shape they need: a conditional branch mentioning a free parameter / a let-bound name
+                    if cond_free {
+                        return None;
+                    }
                     if name_in_branch(&case.prog.body, &free_names) {
                         Some("repl:free-variable-in-conditional-branch-is-quoted-as-its-name")
                     } else if branch_mentions_a_let_bound_name(&case.prog, &[]) {
@@ -491,7 +507,22 @@ pub fn run(cfg: &Cfg) -> i32 {
                                     Outcome::CostCap => out.inconclusive("costcap", json!({"case": id})),
                                     _ => {
                                         ok = false;
-                                        let sig = judge_shape(&mut out);
+                                        let mut sig = judge_shape(&mut out);
+                                        if sig.is_none() && free_names.iter().any(|n| r.contains(&format!("{n}_$_"))) {
+                                            // listed finding: a free variable captured by a lambda comes back renamed (A1_$_362566) in the residual,
+                                            // a name that is bound nowhere
+                                            sig = Some("repl:free-variable-captured-by-a-lambda-is-renamed-in-the-residual");
+                                        }
+                                        if sig.is_none() && !cond_free {
+                                            // listed finding repl-free-argument-wrong-constant inside a residual: a statically decided conditional's
+                                            // branch folded to () because the environment holds a free variable.  Attributed only for programs
+                                            // that have conditionals and only when the same call with the free variables replaced by their
+                                            // values gives exactly the compiled program's result.
+                                            let closed_ok = wrapper_call(&case.prog.params, a).map(|c| matches!(s.line(&c), Answer::Constant(x) if x == *w)).unwrap_or(false);
+                                            if closed_ok {
+                                                sig = Some("repl:call-with-a-free-argument-folds-to-a-wrong-constant");
+                                            }
+                                        }
                                         out.violation(json!({"kind":"residual_program_disagrees_with_the_original","engine":"c16","sig":sig,"form":"partly_open","case":id,"definitions":defs,"wrapper":trunc(&format!("(defun-inline cx_main {} {})", params, body),1200),"expression":trunc(&call,600),"residual":trunc(&r,1000),"free":free_names,"args":a.show(),"original_returns":w.show(),"residual_returns":got.show()}));
                                     }
                                 }
